@@ -27,6 +27,7 @@ THEOREMS = [
     'C03.nlist_text_roundtrip',
     'C03.bins_refine', 'C03.src_bins_sound', 'C03.cands_table_eq', 'C03.nlistFull_complete',
     'C03.nbr_growth_as_modelled', 'C03.answers_fresh', 'C03.answers_history_independent', 'C03.answers_complete',
+    'C03.src_reals_double', 'C03.src_scalars_as_modelled', 'C03.dump_as_modelled', 'C03.src_dump_roundtrip',
 ]
 PARTIAL = {}
 RULE = ('systems: orthogonal / tilted / general (rotated, left-handed) cells with non-zero origin, all 8 pbc '
@@ -1134,6 +1135,248 @@ def _nat_expr(text, names):
     return go(tree)
 
 
+# -- declared C types of the real-valued variables, scalar expressions, acceptance tests, dump format --------------
+_REAL_TYPES = {'double': 'double', 'float': 'single', 'long double': 'longdouble', 'np.float64_t': 'double',
+               'np.float32_t': 'single', 'cnp.float64_t': 'double', 'cnp.float32_t': 'single',
+               'float64': 'double', 'float32': 'single', 'float16': 'single', 'longdouble': 'longdouble'}
+_NLIST_REALS = ['cutoff', 'cutoff2', 'binsize', 'corner', 'supermin', 'supermax', 'xbins', 'ybins', 'zbins', 'posv',
+                'vects', 'origin', 'newposv', 'ghostpos', 'upos', 'vpos', 'dmag2', 'pos']
+_DMAG_REALS = ['pos_0', 'pos_1', 'bvects', 'mag2_test', 'd', 'mag2_dv', 'mag2_d']
+
+
+def _split_top(text):
+    """split at commas that are not inside brackets."""
+    out, depth, cur = [], 0, ''
+    for ch in text:
+        if ch in '([{':
+            depth += 1
+        elif ch in ')]}':
+            depth -= 1
+        if ch == ',' and depth == 0:
+            out.append(cur)
+            cur = ''
+        else:
+            cur += ch
+    if cur.strip():
+        out.append(cur)
+    return [x.strip() for x in out if x.strip()]
+
+
+def _real_decls(lines, fname):
+    """{variable: declared real type} of one Cython function: its parameters, its `cdef` declarations and the numpy
+    arrays it creates with an explicit floating dtype.  `lines`: the code lines of the function (first = signature,
+    possibly continued)."""
+    import re
+    from ..translate import TranslationError
+    ty = r'(?P<ty>long double|double|float|c?np\.float(?:32|64)_t)'
+    decl = re.compile(r'^(?:const\s+)?' + ty + r'\s*(?:\[[:,\s]*\])?\s+(?P<rest>.+)$')
+    out = {}
+
+    def put(name, t):
+        t = _REAL_TYPES[t]
+        if name in out and out[name] != t:
+            raise TranslationError(f'{fname}: {name} declared with two different real types')
+        out[name] = t
+    # signature
+    sig = ''
+    k = 0
+    while k < len(lines):
+        sig += ' ' + lines[k]
+        k += 1
+        if sig.rstrip().endswith(':') and sig.count('(') == sig.count(')'):
+            break
+    m = re.match(r'^\s*c?p?def\s+(?:\w+\s+)?' + re.escape(fname) + r'\((?P<params>.*)\)\s*:$', sig.strip(), flags=re.S)
+    if not m:
+        raise TranslationError(f'{fname}: signature not recognised: {sig.strip()[:120]!r}')
+    for prm in _split_top(m.group('params')):
+        prm = prm.split('=')[0].strip()
+        d = decl.match(prm)
+        if d:
+            put(d.group('rest').strip(), d.group('ty'))
+    for l in lines[k:]:
+        if l.startswith('cdef '):
+            d = decl.match(l[5:].strip())
+            if d:
+                for item in _split_top(d.group('rest')):
+                    put(item.split('=')[0].strip(), d.group('ty'))
+        a = re.match(r'^(?P<name>\w+)\s*=\s*np\.(?:asarray|array|empty|zeros|ones)\(.*dtype\s*=\s*(?:np\.)?[\'"]?(?P<dt>\w+)[\'"]?\s*\)$', l)
+        if a and a.group('dt') in _REAL_TYPES:
+            put(a.group('name'), a.group('dt'))
+    return out
+
+
+def _function_lines(src, header_re, what):
+    """code lines (comments / docstrings removed, stripped) of the top-level function whose first line matches."""
+    import re
+    from ..translate import TranslationError
+    raw = src.splitlines()
+    starts = [k for k, l in enumerate(raw) if re.match(header_re, l)]
+    if len(starts) != 1:
+        raise TranslationError(f'{what}: function header found {len(starts)} times')
+    k0 = starts[0]
+    end = len(raw)
+    for k in range(k0 + 1, len(raw)):
+        if raw[k] and not raw[k][0].isspace() and not raw[k].startswith(('#', ')')):
+            end = k
+            break
+    body = '\n'.join(raw[k0:end])
+    body = re.sub(r'(\'\'\'|""")(?:.|\n)*?\1', '', body)         # docstrings
+    return _code_lines(body)
+
+
+def _rat_expr(text, names):
+    """restricted real expression -> Lean term over Rat: names, int / decimal literals, +, *."""
+    import ast
+    from ..translate import TranslationError
+    try:
+        tree = ast.parse(text.strip(), mode='eval').body
+    except SyntaxError as e:
+        raise TranslationError(f'cannot parse {text!r}: {e}')
+
+    def go(n):
+        if isinstance(n, ast.Constant) and isinstance(n.value, (int, float)) and not isinstance(n.value, bool):
+            f = Fraction(ast.get_source_segment(text.strip(), n) or repr(n.value))
+            return f'(({f.numerator} : Rat) / {f.denominator})' if f.denominator != 1 else f'({f.numerator} : Rat)'
+        if isinstance(n, ast.Name) and n.id in names:
+            return n.id
+        if isinstance(n, ast.BinOp) and isinstance(n.op, (ast.Add, ast.Mult)):
+            return f'({go(n.left)} {"+" if isinstance(n.op, ast.Add) else "*"} {go(n.right)})'
+        if isinstance(n, ast.BinOp) and isinstance(n.op, ast.Pow) and isinstance(n.right, ast.Constant) and n.right.value == 2:
+            return f'({go(n.left)} * {go(n.left)})'
+        raise TranslationError(f'expression outside the translated subset: {text!r}')
+    return go(tree)
+
+
+def _cmp_expr(text, subst):
+    """one comparison between two of the substituted operands -> Lean Bool term."""
+    import ast
+    from ..translate import TranslationError
+    for a, b in subst.items():
+        text = text.replace(a, b)
+    try:
+        n = ast.parse(text.strip(), mode='eval').body
+    except SyntaxError as e:
+        raise TranslationError(f'cannot parse {text!r}: {e}')
+    ok = set(subst.values())
+    if not (isinstance(n, ast.Compare) and len(n.ops) == 1 and isinstance(n.left, ast.Name) and n.left.id in ok
+            and isinstance(n.comparators[0], ast.Name) and n.comparators[0].id in ok):
+        raise TranslationError(f'test outside the translated subset: {text!r}')
+    a, b, op = n.left.id, n.comparators[0].id, n.ops[0]
+    table = {ast.Lt: f'decide ({a} < {b})', ast.LtE: f'decide ({a} ≤ {b})', ast.Gt: f'decide ({b} < {a})',
+             ast.GtE: f'decide ({b} ≤ {a})', ast.Eq: f'decide ({a} = {b})', ast.NotEq: f'decide ({a} ≠ {b})'}
+    if type(op) not in table:
+        raise TranslationError(f'test outside the translated subset: {text!r}')
+    return table[type(op)]
+
+
+def _unique(lines, pat, what):
+    import re
+    from ..translate import TranslationError
+    hits = [m for m in (re.fullmatch(pat, l) for l in lines) if m]
+    if len(hits) != 1:
+        raise TranslationError(f'{what}: /{pat}/ found {len(hits)} times')
+    return hits[0]
+
+
+def _cmt(text):
+    """text that is safe inside a Lean doc comment."""
+    return text.replace('-/', '- /').replace('/-', '/ -')
+
+
+def _chars(text):
+    return '[' + ', '.join(f'Char.ofNat {ord(ch)}' for ch in text) + ']'
+
+
+def _fmt_lean(fmt, var):
+    """Python %-format string with exactly one integer conversion -> Lean `List Char` term in `var : Nat`."""
+    import re
+    from ..translate import TranslationError
+    m = re.fullmatch(r'(?P<pre>[^%]*)%(?P<w>\d*)(?P<conv>[id])(?P<post>[^%]*)', fmt)
+    if not m:
+        raise TranslationError(f'NeighborList.dump: format {fmt!r} outside the translated subset')
+    num = f'Nat.toDigits 10 {var}'
+    if m.group('w'):
+        num = f'padLeft {int(m.group("w"))} ({num})'
+    parts = ([_chars(m.group('pre'))] if m.group('pre') else []) + [num] + ([_chars(m.group('post'))] if m.group('post') else [])
+    return ' ++ '.join(parts)
+
+
+def _translate_dump():
+    """the body of NeighborList.dump, walked as a syntax tree: header writes, one line per atom = index format,
+    neighbor format per entry, end of line."""
+    import ast
+    from ..translate import TranslationError
+    tree = ast.parse(cm.source('atomman/core/NeighborList.py'))
+    cls = [n for n in tree.body if isinstance(n, ast.ClassDef) and n.name == 'NeighborList']
+    fn = [n for n in (cls[0].body if cls else []) if isinstance(n, ast.FunctionDef) and n.name == 'dump']
+    if len(fn) != 1:
+        raise TranslationError('NeighborList.dump not found')
+    body = [n for n in fn[0].body if not (isinstance(n, ast.Expr) and isinstance(n.value, ast.Constant))]   # docstring
+    bad = TranslationError('NeighborList.dump no longer has the translated shape')
+
+    def write_arg(n):
+        if (isinstance(n, ast.Expr) and isinstance(n.value, ast.Call) and isinstance(n.value.func, ast.Attribute)
+                and n.value.func.attr == 'write' and isinstance(n.value.func.value, ast.Name)
+                and n.value.func.value.id == 'fp' and len(n.value.args) == 1 and not n.value.keywords):
+            return n.value.args[0]
+        raise bad
+
+    def fmt_of(n, var):
+        a = write_arg(n)
+        if (isinstance(a, ast.BinOp) and isinstance(a.op, ast.Mod) and isinstance(a.left, ast.Constant)
+                and isinstance(a.left.value, str) and isinstance(a.right, ast.Name) and a.right.id == var):
+            return a.left.value
+        raise bad
+
+    def const_of(n):
+        a = write_arg(n)
+        if isinstance(a, ast.Constant) and isinstance(a.value, str):
+            return a.value
+        raise bad
+    if not (len(body) == 1 and isinstance(body[0], ast.With) and len(body[0].items) == 1
+            and ast.unparse(body[0].items[0].context_expr) == "open(fname, 'w')"
+            and isinstance(body[0].items[0].optional_vars, ast.Name) and body[0].items[0].optional_vars.id == 'fp'):
+        raise bad
+    wb = body[0].body
+    if not wb or not isinstance(wb[-1], ast.For):
+        raise bad
+    header = ''.join(const_of(n) for n in wb[:-1])
+    loop = wb[-1]
+    if not (isinstance(loop.target, ast.Name) and loop.target.id == 'i' and ast.unparse(loop.iter) == 'range(len(self))'
+            and not loop.orelse and len(loop.body) == 3 and isinstance(loop.body[1], ast.For)):
+        raise bad
+    inner = loop.body[1]
+    if not (isinstance(inner.target, ast.Name) and inner.target.id == 'j' and ast.unparse(inner.iter) == 'self[i]'
+            and not inner.orelse and len(inner.body) == 1):
+        raise bad
+    return {'header': header, 'idx': fmt_of(loop.body[0], 'i'), 'nbr': fmt_of(inner.body[0], 'j'),
+            'eol': const_of(loop.body[2])}
+
+
+def _translate_scalars():
+    from ..translate import TranslationError
+    import re
+    nsrc = cm.source('atomman/core/nlist.pyx')
+    dsrc = cm.source('atomman/core/dmag.pyx')
+    nl = _function_lines(nsrc, r'^def nlist\(', 'nlist.pyx')
+    dl = _function_lines(dsrc, r'^cdef dmag2_c\(', 'dmag.pyx')
+    nd = _real_decls(nl, 'nlist')
+    dd = _real_decls(dl, 'dmag2_c')
+    for name in _NLIST_REALS:
+        if name not in nd:
+            raise TranslationError(f'nlist.pyx: no declaration with a real C type found for `{name}`')
+    for name in _DMAG_REALS:
+        if name not in dd:
+            raise TranslationError(f'dmag.pyx: no declaration with a real C type found for `{name}`')
+    g = {}
+    g['cutoff2'] = _unique(nl, r'cdef \w+ cutoff2 = (?P<e>.+)', 'nlist.pyx cutoff2').group('e')
+    g['binsize'] = _unique(nl, r'binsize = (?P<e>.+)', 'nlist.pyx binsize').group('e')
+    g['accept'] = _unique(nl, r'if (?P<e>[^:]*dmag2\[w\][^:]*):', 'nlist.pyx distance test').group('e')
+    g['self'] = _unique(nl, r'if (?P<e>(?:uindex|vindex) *\S+ *(?:uindex|vindex)):', 'nlist.pyx self test').group('e')
+    g['mintest'] = _unique(dl, r'if (?P<e>[^:]*mag2_test[^:]*):', 'dmag.pyx minimum test').group('e')
+    return nd, dd, g
+
+
 def translate():
     from ..translate import TranslationError
     lines = _code_lines(cm.source('atomman/core/nlist.pyx'))
@@ -1178,6 +1421,46 @@ def translate():
         f'def nbrCopyCols (maxneighbors : Nat) : Nat := {_nat_expr(g["nbr_copy"], N[2:3])}',
         f'/-- `maxneighbors += {g["nbr_grow"]}` -/',
         f'def nbrGrow (maxneighbors deltasize : Nat) : Nat := maxneighbors + {_nat_expr(g["nbr_grow"], N[2:])}',
+        '']
+    nd, dd, sg = _translate_scalars()
+    dump = _translate_dump()
+    out += [
+        '/-! ### declared C types of the real-valued variables (the model is exact over `Rat`: it idealises `double`) -/',
+        'inductive CReal where', '  | double | single | longdouble', '  deriving DecidableEq, Repr', '']
+    for name in _NLIST_REALS:
+        out.append(f'/-- nlist: `{name}` -/')
+        out.append(f'def ty_nlist_{name} : CReal := .{nd[name]}')
+    for name in _DMAG_REALS:
+        out.append(f'/-- dmag2_c: `{name}` -/')
+        out.append(f'def ty_dmag_{name} : CReal := .{dd[name]}')
+    others = [(f'nlist.{k}', v) for k, v in sorted(nd.items()) if k not in _NLIST_REALS] \
+        + [(f'dmag2_c.{k}', v) for k, v in sorted(dd.items()) if k not in _DMAG_REALS]
+    out.append('/-- every other variable of the two functions declared with a real C type: '
+               + ', '.join(k for k, _ in others) + ' -/')
+    out.append('def otherReals : List CReal := [' + ', '.join('.' + v for _, v in others) + ']')
+    out += [
+        '', '/-! ### scalar expressions and tests of the distance comparison -/',
+        f'/-- `cdef double cutoff2 = {sg["cutoff2"]}` -/',
+        f'def cutoff2Of (cutoff : Rat) : Rat := {_rat_expr(sg["cutoff2"], ["cutoff"])}',
+        f'/-- `binsize = {sg["binsize"]}` -/',
+        f'def binsizeOf (cutoff : Rat) : Rat := {_rat_expr(sg["binsize"], ["cutoff"])}',
+        f'/-- `if {sg["accept"]}:` (`d` = `dmag2[w]`, `c2` = `cutoff2`) -/',
+        f'def acceptTest (d c2 : Rat) : Bool := {_cmp_expr(sg["accept"], {"dmag2[w]": "d", "cutoff2": "c2"})}',
+        f'/-- `if {sg["self"]}:` -/',
+        f'def distinctTest (uindex vindex : Nat) : Bool := {_cmp_expr(sg["self"], {"uindex": "uindex", "vindex": "vindex"})}',
+        f'/-- dmag2_c: `if {sg["mintest"]}:` (`t` = `mag2_test`, `m` = `mag2_dv[i]`) -/',
+        f'def minTest (t m : Rat) : Bool := {_cmp_expr(sg["mintest"], {"mag2_test": "t", "mag2_dv[i]": "m"})}',
+        '', '/-! ### `NeighborList.dump` -/',
+        '/-- right-alignment of `%<w>i` -/',
+        "def padLeft (w : Nat) (l : List Char) : List Char := List.replicate (w - l.length) ' ' ++ l",
+        f'/-- the text written before the first atom line: {_cmt(repr(dump["header"]))} -/',
+        f'def dumpHeader : List Char := {_chars(dump["header"])}',
+        f'/-- `fp.write({_cmt(repr(dump["idx"]))} % i)` -/',
+        f'def dumpIdx (i : Nat) : List Char := {_fmt_lean(dump["idx"], "i")}',
+        f'/-- `fp.write({_cmt(repr(dump["nbr"]))} % j)` -/',
+        f'def dumpNbr (j : Nat) : List Char := {_fmt_lean(dump["nbr"], "j")}',
+        f'/-- `fp.write({_cmt(repr(dump["eol"]))})` -/',
+        f'def dumpEol : List Char := {_chars(dump["eol"])}',
         '', 'end Atomman.C03.Gen', '']
     return {'NlistStorage': '\n'.join(out)}
 
